@@ -17,6 +17,10 @@ Definition range_ok (lo hi : option Q) : Prop :=
   forall l h, lo = Some l -> hi = Some h -> l <= h.
 Definition in_band (mul : Q -> Q -> Q) (g t : Q) : Prop :=
   mul g band_lo <= t /\ t <= mul g band_hi.
+(* the same two clauses for an element of an array whose dtype rounds stored scalars by [cast] *)
+Definition in_range_cast (cast : Q -> Q) (lo hi t : Q) : Prop := cast lo <= t /\ t <= cast hi.
+Definition in_band_cast (mul : Q -> Q -> Q) (cast : Q -> Q) (g t : Q) : Prop :=
+  cast (mul g band_lo) <= t /\ t <= cast (mul g band_hi).
 
 (* pixel i carries the per-object sentinel (labels == 0) and is outside the claim *)
 Definition unlabelled (inp : inputs) (i : nat) : bool :=
@@ -27,7 +31,8 @@ Definition unlabelled (inp : inputs) (i : nat) : bool :=
 
 (* ---- closed form of get_threshold (what the generated program must be equal to) *)
 Section Ref.
-  Variable mul : Q -> Q -> Q.
+  Variable mul amul : Q -> Q -> Q.
+  Variable cast : Q -> Q.
   Variables blo bhi sent : Q.
   Definition clamp_opt (lo hi : option Q) (x : Q) : Q :=
     let x1 := match lo with Some l => qmax x l | None => x end in
@@ -36,30 +41,32 @@ Section Ref.
   Definition ref_rmin (lo g : Q) : Q := qmax lo (mul g blo).
   Definition ref_rmax (hi g : Q) : Q := qmin hi (mul g bhi).
   Definition ref_array (cf lo hi g : Q) (raws : list Q) : list Q :=
-    map (clamp_hi (ref_rmax hi g)) (map (clamp_lo (ref_rmin lo g)) (map (fun x => mul x cf) raws)).
+    map (clamp_hi (cast (ref_rmax hi g))) (map (clamp_lo (cast (ref_rmin lo g))) (map (fun x => amul x (cast cf)) raws)).
   Definition ref_local (inp : inputs) (lo hi g : Q) : list Q :=
     let a := ref_array (in_cf inp) lo hi g (in_raw_l inp) in
     match in_mod inp, in_lab0 inp with
-    | MPerObject, Some lb => sentinel sent a lb
+    | MPerObject, Some lb => sentinel (cast sent) a lb
     | _, _ => a
     end.
 End Ref.
 
 (* the whole call in closed form, with the property's constants: what get_threshold is specified to
    return for given raw thresholds (None = raises) *)
-Definition ref_run (mul : Q -> Q -> Q) (inp : inputs) (lo hi : option Q) : option (val * val) :=
+Definition ref_run (mul amul : Q -> Q -> Q) (cast : Q -> Q) (inp : inputs) (lo hi : option Q) : option (val * val) :=
   let g := ref_global mul (in_raw_g inp) (in_cf inp) lo hi in
   match in_mod inp with
   | MGlobal => Some (VNum (clamp_opt lo hi g), VNum g)
   | _ => match lo, hi with
-         | Some l, Some h => Some (VArr (ref_local mul band_lo band_hi sentinel_value inp l h g), VNum g)
+         | Some l, Some h => Some (VArr (ref_local mul amul cast band_lo band_hi sentinel_value inp l h g), VNum g)
          | _, _ => None
          end
   end.
-(* same wire format as Model.ThresholdRun.entry_run *)
+(* same wire format as Model.ThresholdRun.entry_run; arg 7 = 1 when the local array is float32 *)
 Definition entry_ref (x : sx) : sx :=
   let inp := mkIn (as_modifier (arg 0 x)) (as_Q (arg 1 x)) (as_Q (arg 2 x)) (as_Qs (arg 5 x)) (as_lab0 (arg 6 x)) in
-  match ref_run fmul inp (as_optQ (arg 3 x)) (as_optQ (arg 4 x)) with
+  let f32 := as_bool (arg 7 x) in
+  match ref_run fmul (if f32 then fmul32 else fmul) (if f32 then round32 else (fun q => q)) inp
+          (as_optQ (arg 3 x)) (as_optQ (arg 4 x)) with
   | Some (l, g) => L [of_val l; of_val g]
   | None => L []
   end.
@@ -68,13 +75,18 @@ Definition entry_ref (x : sx) : sx :=
 Definition in_rangeb (lo hi : option Q) (x : Q) : bool :=
   match lo with Some l => Qle_bool l x | None => true end &&
   match hi with Some h => Qle_bool x h | None => true end.
-Definition in_bandb (mul : Q -> Q -> Q) (g t : Q) : bool :=
-  Qle_bool (mul g band_lo) t && Qle_bool t (mul g band_hi).
-(* global in range; every listed local threshold in range and (when [band]) in the band *)
-Definition check_thresholds (mul : Q -> Q -> Q) (lo hi : option Q) (g : Q) (band : bool) (ts : list Q) : bool :=
-  in_rangeb lo hi g && forallb (fun t => in_rangeb lo hi t && (negb band || in_bandb mul g t)) ts.
+Definition in_bandb (mul : Q -> Q -> Q) (cast : Q -> Q) (g t : Q) : bool :=
+  Qle_bool (cast (mul g band_lo)) t && Qle_bool t (cast (mul g band_hi)).
+Definition cast_opt (cast : Q -> Q) (o : option Q) : option Q :=
+  match o with Some q => Some (cast q) | None => None end.
+(* global in range; every listed local threshold in the range and (when [band]) in the band, the limits
+   being converted to the array's dtype by [cast] (identity unless the array is float32) *)
+Definition check_thresholds (mul : Q -> Q -> Q) (cast : Q -> Q) (lo hi : option Q) (g : Q) (band : bool) (ts : list Q) : bool :=
+  in_rangeb lo hi g &&
+  forallb (fun t => in_rangeb (cast_opt cast lo) (cast_opt cast hi) t && (negb band || in_bandb mul cast g t)) ts.
 
-(* arg: (lo? hi? g band ts) *)
+(* arg: (lo? hi? g band ts f32) *)
 Definition entry_check (x : sx) : sx :=
-  of_bool (check_thresholds fmul (as_optQ (arg 0 x)) (as_optQ (arg 1 x)) (as_Q (arg 2 x))
+  of_bool (check_thresholds fmul (if as_bool (arg 5 x) then round32 else (fun q => q))
+             (as_optQ (arg 0 x)) (as_optQ (arg 1 x)) (as_Q (arg 2 x))
              (as_bool (arg 3 x)) (as_Qs (arg 4 x))).
